@@ -847,6 +847,7 @@ ldb_write_level0_table(ldb_t *db, ldb_memtable_t *mem,
 
   meta.number = ldb_versions_new_file_number(db->versions);
 
+  LCDB_ACC("pending", db, 1);
   rb_set64_put(&db->pending_outputs, meta.number);
 
   LCDB_EV(("FlushStart", "\"num\":%lu,\"mem\":%d,\"recovery\":%d",
@@ -884,6 +885,7 @@ ldb_write_level0_table(ldb_t *db, ldb_memtable_t *mem,
 
   ldb_iter_destroy(iter);
 
+  LCDB_ACC("pending", db, 1);
   rb_set64_del(&db->pending_outputs, meta.number);
 
   /* Note that if file_size is zero, the file has been deleted and
@@ -911,6 +913,7 @@ ldb_write_level0_table(ldb_t *db, ldb_memtable_t *mem,
   stats.micros = ldb_now_usec() - start_micros;
   stats.bytes_written = meta.file_size;
 
+  LCDB_ACC("stats", db, 1);
   ldb_stats_add(&db->stats[level], &stats);
 
   ldb_filemeta_clear(&meta);
@@ -1210,6 +1213,7 @@ ldb_record_background_error(ldb_t *db, int status) {
   ldb_mutex_assert_held(&db->mutex);
 
   if (db->bg_error == LDB_OK) {
+    LCDB_ACC("bgerror", db, 1);
     db->bg_error = status;
 
     LCDB_EV(("BgError", "\"rc\":%d", status));
@@ -1282,6 +1286,7 @@ ldb_open_compaction_output_file(ldb_t *db, ldb_cstate_t *state) {
 
     file_number = ldb_versions_new_file_number(db->versions);
 
+    LCDB_ACC("pending", db, 1);
     rb_set64_put(&db->pending_outputs, file_number);
 
     ldb_vector_push(&state->outputs, ldb_output_create(file_number));
@@ -1602,6 +1607,7 @@ ldb_do_compaction_work(ldb_t *db, ldb_cstate_t *state) {
 
   level = state->compaction->level;
 
+  LCDB_ACC("stats", db, 1);
   ldb_stats_add(&db->stats[level + 1], &stats);
 
   if (rc == LDB_OK)
@@ -1640,6 +1646,7 @@ ldb_cleanup_compaction(ldb_t *db, ldb_cstate_t *state) {
   for (i = 0; i < state->outputs.length; i++) {
     const ldb_output_t *out = state->outputs.items[i];
 
+    LCDB_ACC("pending", db, 1);
     rb_set64_del(&db->pending_outputs, out->number);
   }
 
